@@ -155,6 +155,30 @@ Example tsB_wf :
   wf tsB = true /\ render tsB = "C = ({a}*X[-1]) if not is_open > 0 and Pin else `np.pi` * np.sqrt (W[1])" /\
   code_text (render tsB) = Some "self._C[t] = (self._a[t]*self._X[t-1]) if not self._is_open[t] > 0 and self._Pin[t] else np.pi * np.sqrt(self._W[t+1])".
 Proof. vm_compute. repeat split; reflexivity. Qed.
+(* the comparisons `<` and `<=` (SLt): a conditional with both; and `A < X > 0`, where term_re takes `< X >` for an error term *)
+Definition tsD : list stok :=
+  [SVar "Y" None; SGap " = "; SVar "A" None; SGap " "; SKw "if"; SGap " "; SVar "A" None; SGap " "; SLt ""; SGap " ";
+   SVar "X" (Some "-1"); SGap " "; SKw "and"; SGap " "; SBra true "" "p" "" None; SLt "="; SGap "2 "; SKw "else"; SGap " 0"].
+Example tsD_wf :
+  wf tsD = true /\ render tsD = "Y = A if A < X[-1] and {p}<=2 else 0" /\
+  code_text (render tsD) = Some "self._Y[t] = self._A[t] if self._A[t] < self._X[t-1] and self._p[t]<=2 else 0" /\
+  code_agrees (row_of ["Y"; "A"; "X"; "p"]) (render tsD) = true /\
+  lt_free " X[-1] and" = true /\ lt_free "=2 " = true /\ lt_free " X > 0" = false /\
+  wf [SVar "Y" None; SGap " = 1 "; SKw "if"; SGap " "; SVar "A" None; SGap " "; SLt ""; SGap " "; SVar "X" None; SGap " > 0 ";
+      SKw "else"; SGap " 2"] = false /\
+  code_text "Y = 1 if A < X > 0 else 2" = Some "self._Y[t] = 1 if self._A[t] self._X[t] 0 else 2".
+Proof. vm_compute. repeat split; reflexivity. Qed.
+(* tight statements (the hypothesis of CodeGenFacts15.code_statement_tie) and the two kinds that are not *)
+Example tight_instances :
+  tight_statement "Yd[1] = { alpha_1 }*exp (  is_open[-12] ) + min( Pin[ +2 ],1.5 )/< e > - not_X**2 + 3*{p}[-1]" = true /\
+  tight_statement "Y = A if A < X[-1] and {p}<=2 else 0" = true /\
+  tight_statement "Y = X if not C >= 1 and (W < X or X == 2) else W if C != 0 else -X" = true /\
+  tight_statement "Y = 1 if not {X} > 0 else 2" = true /\
+  tight_statement "Y = 1 if not{X} > 0 else 2" = false /\          (* keyword fused with the term *)
+  tight_statement "Y = 2{p}" = false /\ tight_statement "Y = 2X" = false /\ tight_statement "Y = 1e5" = false /\
+  tight_statement "Y = X if.5 else 1" = false /\
+  tight_statement "Y = sqrt(X)" = false /\ tight_statement "Y = X['2000']" = false /\ tight_statement "Y = `np.pi` * X" = false.
+Proof. vm_compute. repeat split; reflexivity. Qed.
 Example tsA_code :
   code_text (render tsA) = Some "self._Yd[t+1] = self._alpha_1[t]*np.exp(self._is_open[t-12]) + min(self._Pin[t+2],1.5)/self._e[t] - self._not_X[t]**2 + 3*self._p[t-1] + (self._in_[t]-self._expo[t])".
 Proof. vm_compute. reflexivity. Qed.
